@@ -22,7 +22,7 @@ ASSUMPTIONS = [
 SHARDS = {'quick': 8, 'thorough': 16}
 BUDGET_S = {'quick': 40, 'thorough': 420}
 N_CASES = {'quick': 6000, 'thorough': 240000}
-MIN_OBS = {'law': {'quick': 3000, 'thorough': 100000}}
+MIN_OBS = {'law': {'quick': 1500, 'thorough': 30000}}
 
 KINDS = ['()', '[]', '{}', '<>']
 DELIMS = [',', ':', '=', ' ']
